@@ -47,7 +47,7 @@ pub fn exec(iter: Variable, function: Variable) -> ExecResult {
 }
 
 pub fn return_type(rhs: Type) -> Type {
-    let element_type = rhs.return_type().unwrap();
+    let element_type = rhs.return_type().unwrap_or(Type::Never);
     var_type!(()->(bool, element_type))
 }
 
